@@ -47,7 +47,11 @@ def parseStrategy : String → Strategy
 def parseCp (c : Char) : CpOut :=
   if c = 'n' then .no else if c = 'x' || c = 'y' || c = 'z' then .raise else .base
 
-def parseReq (t : String) : List Nat :=
+/-- `r,r,..|-|none[~<kind>]`: the mark `~<kind>` says as what TYPE of iterable the harness passes the request to the
+    real code (tuple, generator, iterator, map, dict keys view, deque, list subclass); `execute_operation` walks the
+    request exactly once, so the type does not matter and the model drops the mark -/
+def parseReq (t0 : String) : List Nat :=
+  let t := (t0.splitOn "~").headD ""
   if t = "-" || t = "none" then [] else (t.splitOn ",").map (natD ·)
 
 def parseAct (t : String) : WorkAct :=
